@@ -176,3 +176,13 @@ def run(ctx):
     ctx.case(core.fp(t["scenario"]), sample={"scenario": t["scenario"], "events": t["events"][:10]})
   ctx.notes["scenarios"] = dict(total=n, rejected=len([t for t in rejd if t < n]))
   ctx.exhaustive = True
+
+
+def replay_one(ctx, rep):
+  """re-drive the recorded scenario on the current tree and let TLC judge the new outcome trace"""
+  tr = drive(tuple(rep["trace"]["scenario"]))
+  r, rej = tracecheck.validate("framing", "TraceFaults", "TraceFaults.cfg", [tr], tag="C10")
+  for t, m in rej:
+    ev = tr["events"][m]
+    ctx.report(dict(side=tr["scenario"][0], fault=tr["scenario"][2], event=ev["e"], conn=ev["c"]),
+               dict(trace=tr, failing_event=m))
